@@ -125,7 +125,9 @@ func RunDiskFault(s *Scen, r *vk.Rand, a, b int, bin, base string, cycles int) {
 		s.Cfg["faults"] = kinds
 		x := cl.Reps[r.Intn(rf)]
 		// two thirds of the cases keep writes during the rebuild 4 KiB-aligned (known finding F11, see RunRebuild)
-		cl.AlignedOnly = s.Case%3 != 2
+		// (F11 is listed under C07; under C04 it would surface as "a read from an RW replica misses an acknowledged
+		// write" and is kept out of the workload the same way RunRebuild does)
+		cl.AlignedOnly = s.Case%3 != 2 || s.Prop == "C04"
 		ws := startWriters(cl, r, r.Range(1, 3), []time.Duration{0, 300 * time.Microsecond, 2 * time.Millisecond}[r.Intn(3)])
 		time.Sleep(time.Duration(r.Range(30, 300)) * time.Millisecond)
 		errsBefore := len(cl.IOErrs)
